@@ -43,9 +43,6 @@ REQUIRED_THEOREMS = [
     # Props/C19Jac.lean: the Jacobian of the bipolar / bispherical systems is the derivative of pos_to_cart
     "bipolar_jacobian_hasDerivAt", "bisph_jacobian_hasDerivAt",
     "bipolar_jacobian_derivation", "bisph_jacobian_derivation",
-    # ... and the operators of polar / spherical grids act on the components in the order of get_axis_index
-    "operators_use_component_order_polar", "operators_use_component_order_spherical",
-    "operators_use_component_order_spherical_tensor",
 ]
 EXTRA_PROP_FILES = ["C19Jac"]
 RULE = ("legs: coordsys (5 curvilinear coordinate systems + Cartesian 1-3d at random points, batches and "
